@@ -233,7 +233,7 @@ def run_case(rng):
     form = {"survey": survey}
     if spelled:
         form["settings"] = [spelled]
-    delivery = rng.choice(["dict", "dict", "md", "xlsx-path", "xlsx-bytes", "md-path", "md-path.txt", "md-path.MD", "md-path.", "xlsx-path.XLSX", "xlsx-path.dat"])
+    delivery = rng.choice(["dict", "dict", "md", "xlsx-path", "xlsx-bytes", "md-path", "md-path.txt", "md-path.MD", "md-path.", "xlsx-path.XLSX", "xlsx-path.dat", "xlsx-gap", "xlsx-gap"])
     if delivery.startswith("md") and not forms.md_representable(form):
         delivery = "dict"
     stem = None
@@ -253,6 +253,23 @@ def convert_delivery(form, delivery, form_name, dl, stem_name="My Survey_v2"):
             arg, kw = forms.as_md(form), {"file_type": ".md"}
         elif delivery == "xlsx-bytes":
             arg, kw = forms.as_xlsx_bytes(form), {}
+        elif delivery == "xlsx-gap":
+            # a spacer column (blank header cell, no data) to the left of named columns: every column keeps its own cells
+            import io as _io
+            from openpyxl import Workbook
+            wb = Workbook()
+            wb.remove(wb.active)
+            for sheet, rows in form.items():
+                ws = wb.create_sheet(title=sheet)
+                hs = forms.headers_of(rows)
+                gap = 1 if len(hs) > 1 else 0
+                ws.append(hs[:gap] + ([None] if gap else []) + hs[gap:])
+                for r in rows:
+                    vals = [r.get(h) for h in hs]
+                    ws.append(vals[:gap] + ([None] if gap else []) + vals[gap:])
+            bio = _io.BytesIO()
+            wb.save(bio)
+            arg, kw = bio.getvalue(), {}
         else:
             tmp = tempfile.mkdtemp(prefix="c11_")
             ext = ".xlsx" if delivery == "xlsx-path" else ".md"
